@@ -75,6 +75,8 @@ func (g *clientGen) socketCases() []KCase {
 			out = append(out, KCase{Kind: "tail", Iters: tiles, Calls: short})
 		}
 	}
+	// the socket gets descriptor 0 (a daemon started with its standard input closed)
+	out = append(out, KCase{Kind: "fdzero"})
 	// the sequence counter across the uint32 wrap (the counter is started just below 2^32)
 	for _, back := range []uint32{1, 2, 5} {
 		out = append(out, KCase{Kind: "seqwrap", Seq0: 0xFFFFFFFF - back, Calls: 12})
@@ -719,6 +721,65 @@ func runTailCase(ctx *Ctx, c KCase, idx int) *common.Violation {
 		return viol(fmt.Sprintf("C18: %d messages were sent with NLM_F_ACK, the kernel answered %d", len(sent), len(answers)), fmt.Sprintf("answers: %#x", answers))
 	}
 	return nil
+}
+
+// runFdZeroCase: which descriptor number the socket gets is not the caller's choice. Standard input is put aside and
+// closed, so that the next descriptor the process opens is 0; a NetlinkClient made now sends a request and must get
+// the kernel's answer like any other. Standard input is put back afterwards. (This process does not read it.)
+func runFdZeroCase(ctx *Ctx, c KCase, idx int) *common.Violation {
+	ctx.Res.Count(c.canon(), true)
+	ctx.Res.Hist("socket_on_descriptor_0")
+	viol := func(clause string) *common.Violation {
+		return &common.Violation{Kind: "monitor", Clause: clause, Input: c, Case: idx}
+	}
+	saved, err := syscall.Dup(0)
+	if err != nil {
+		// descriptor 0 is not open in this process: the next socket gets it anyway
+		saved = -1
+	} else {
+		syscall.CloseOnExec(saved)
+		syscall.Close(0)
+	}
+	restore := func() {
+		if saved >= 0 {
+			syscall.Dup2(saved, 0)
+			syscall.Close(saved)
+			saved = -1
+		}
+	}
+	defer restore()
+	nl, err := libaudit.NewNetlinkClient(syscall.NETLINK_ROUTE, 0, make([]byte, 4096), nil)
+	if err != nil {
+		socks.note(ctx, "route", "C18 clauses NOT explored: cannot open a NETLINK_ROUTE socket: "+err.Error())
+		return nil
+	}
+	fd := -2
+	if f := reflect.ValueOf(nl).Elem().FieldByName("fd"); f.IsValid() && f.Kind() == reflect.Int {
+		fd = int(f.Int())
+	}
+	ctx.Res.Hist(fmt.Sprintf("socket_descriptor_%d", fd))
+	defer func() {
+		nl.Close()
+	}()
+	seq, err := nl.Send(syscall.NetlinkMessage{Header: syscall.NlMsghdr{Type: syscall.NLMSG_NOOP, Flags: uint16(syscall.NLM_F_REQUEST | syscall.NLM_F_ACK)}, Data: []byte{1, 2, 3, 4}})
+	if err != nil {
+		return viol(fmt.Sprintf("C18: Send on a NETLINK_ROUTE socket (descriptor %d) failed: %v", fd, err))
+	}
+	deadline := time.Now().Add(2 * time.Second)
+	for {
+		msgs, err := nl.Receive(true, syscall.ParseNetlinkMessage)
+		if err == nil {
+			if len(msgs) != 1 || msgs[0].Header.Type != syscall.NLMSG_ERROR || msgs[0].Header.Seq != seq {
+				return viol(fmt.Sprintf("C18: Receive on a client whose socket is descriptor %d did not return the kernel's acknowledgement unchanged: %+v", fd, msgs))
+			}
+			return nil
+		}
+		if (errors.Is(err, syscall.EAGAIN) || errors.Is(err, syscall.EINTR)) && time.Now().Before(deadline) {
+			time.Sleep(200 * time.Microsecond)
+			continue
+		}
+		return viol(fmt.Sprintf("C18: Receive on a client whose socket is descriptor %d returned an error although the kernel acknowledged the request: %v", fd, err))
+	}
 }
 
 // setNetlinkSeq starts the client's sequence counter at v. The counter is an unexported field: it is found by name
